@@ -3,11 +3,35 @@
     ensures true,
 @fn variables_without_finite_bounds @assumed -> r
     ensures true,
-//@ ASSUMED (iterator cloned / next / fold over a function item): the sum of the listed expressions
-@fn sum_exps @assumed -> r
+//@ the sum of the listed expressions (rule R34b turns the cloned / next / fold chain into an index loop)
+@fn sum_exps -> r
     ensures
         (forall|k: int| 0 <= k < exps@.len() ==> exp_fin(#[trigger] exps@[k])) ==> exp_fin(r),
         forall|env: Env| (forall|k: int| 0 <= k < exps@.len() ==> sem(#[trigger] exps@[k], env) is Some) ==> #[trigger] sem(r, env) == Some(ssum(exps@, env, exps@.len() as int)),
+@fn sum_exps @after "let first"
+    proof {
+        lemma_exp_fin(first);
+        assert forall|env: Env| (forall|k: int| 0 <= k < exps@.len() ==> sem(#[trigger] exps@[k], env) is Some) implies #[trigger] sem(first, env) == Some(ssum(exps@, env, 1)) by {
+            reveal_with_fuel(ssum, 3);
+            if vx_n1 > 0 { assert(sem(exps@[0], env) is Some); }
+        }
+    }
+@fn sum_exps @loop 1
+    invariant
+        vx_n1 == exps@.len(),
+        ((forall|k: int| 0 <= k < exps@.len() ==> exp_fin(#[trigger] exps@[k])) ==> exp_fin(vx_acc1)),
+        (forall|env: Env| (forall|k: int| 0 <= k < exps@.len() ==> sem(#[trigger] exps@[k], env) is Some) ==> #[trigger] sem(vx_acc1, env) == Some(ssum(exps@, env, vx_i1 as int))),
+@fn sum_exps @loop 1 @start
+    let ghost acc0 = vx_acc1;
+@fn sum_exps @loop 1 @end
+    proof {
+        lemma_exp_fin(vx_acc1);
+        assert forall|env: Env| (forall|k: int| 0 <= k < exps@.len() ==> sem(#[trigger] exps@[k], env) is Some) implies #[trigger] sem(vx_acc1, env) == Some(ssum(exps@, env, vx_i1 + 1)) by {
+            lemma_sem_binop(BinOp::Add, vx_acc1->BinOp_1, vx_acc1->BinOp_2, env);
+            assert(sem(acc0, env) == Some(ssum(exps@, env, vx_i1 as int)));
+            assert(sem(exps@[vx_i1 as int], env) is Some);
+        }
+    }
 @fn linearize_extreme @attr
 #[verifier::exec_allows_no_decreases_clause]
 @fn linearize_extreme -> res
